@@ -372,7 +372,18 @@ _ELEM_ENUM = re.compile(r"elem\(([^()]*(?:\([^()]*\))*[^()]*)\)\.1(?![0-9])")
 _INDEXED = re.compile(r"([A-Za-z_][\w.]*)\.\[\]")
 
 
+_WHOLE_SLICE = re.compile(r"\b(?:index|index_mut)\(([^(),]+),_\)|\b(?:as_slice|as_mut_slice)\(([^()]+)\)")
+
+
 def canon_elem(txt):
+    txt = _canon_elem(txt)
+    if isinstance(txt, str) and ("index(" in txt or "as_slice(" in txt or "as_mut_slice(" in txt or "index_mut(" in txt):
+        # the whole sequence as a slice: `&xs[..]` / `xs.as_slice()` / xs
+        txt = _WHOLE_SLICE.sub(lambda m: m.group(1) or m.group(2), txt)
+    return txt
+
+
+def _canon_elem(txt):
     """`some element of the sequence X`: reached by iterating (`elem(X)`), by iterating with `enumerate()` (`elem(X).1`) or by
     indexing with the loop counter (`X.[]`) - one spelling."""
     if not isinstance(txt, str) or ("elem(" not in txt and ".[]" not in txt):
